@@ -511,12 +511,13 @@ struct Prog {
     op = "initial state"; verify_row(0); verify_row(1); verify_tree();
     int steps = 0;
     while (!t.exhausted() && steps < 200) {
-      ++steps; int who = t.weighted({45, 15, 40});
+      ++steps; int who = t.weighted({45, 15, 40}); try {
       if (who == 2) { step_tree(); verify_tree(); }
       else { dimension_type r0 = tree_reserved(row_tree(rows[0].r)), r1 = tree_reserved(row_tree(rows[1].r)); bool bulk;
         step_row(who); bulk = op.find("bulk") != std::string::npos; verify_row(0); verify_row(1);
         bool structural = op.find("= ") == std::string::npos && op.find("swap(row") == std::string::npos && op.find("clear") == std::string::npos && op.find("ascii") == std::string::npos;
         if (!bulk && structural && (big_change(r0, tree_reserved(row_tree(rows[0].r))) || big_change(r1, tree_reserved(row_tree(rows[1].r))))) { ++rebuilds; c.tag("row rebuilt (single op)"); } }
+      } catch (...) { c.log << "  " << op << "   <-- stopped in or after this step\n"; throw; }
     }
     c.tag(max_stored > 256 ? "max stored > 256" : max_stored > 64 ? "max stored 65..256" : max_stored > 8 ? "max stored 9..64" : "max stored <= 8");
     if (rebuilds > 0 || stale_used > 0) c.nt();
